@@ -28,6 +28,32 @@ let omega_ s = match list s with
         M.w_deps = list_ (pair_ nat_ (list_ nat_)) d; M.w_res = list_ nat_ rs; M.w_dmap = list_ nat_ dm }
   | _ -> failwith "omega"
 
+(* round 7: items as written (tools/projgen.py sx_type / sx_serde / sx_item forms) *)
+let rec qty_ s = match list s with
+  | [Atom "path"; segs; n; angle; args] -> M.QPath (list_ str_ segs, str_ n, bool_ angle, list_ qty_ args)
+  | [Atom "ref"; t] -> M.QRef (qty_ t)
+  | [Atom "tuple"; ts] -> M.QTuple (list_ qty_ ts)
+  | _ -> failwith "qty"
+let serde_ s = match list s with
+  | [Atom "rename"; v] -> M.SRename (str_ v)
+  | [Atom "rename_all"; v] -> M.SRenameAll (str_ v)
+  | [Atom "skip"] -> M.SSkip
+  | _ -> M.SOtherSerde
+(* (name (serde..) ((fname ty (serde..)) ..)) *)
+let struct_ s = match list s with
+  | [n; sd; fs] ->
+      { M.s_name = str_ n; M.s_serde = list_ serde_ sd;
+        M.s_fields = list_ (fun f -> match list f with
+                                     | [fn; ty; fsd] -> { M.f_name = str_ fn; M.f_ty = qty_ ty; M.f_serde = list_ serde_ fsd }
+                                     | _ -> failwith "field") fs }
+  | _ -> failwith "struct"
+(* (name ((attr path..) ..) async ((pname ty) ..) (ret)?) *)
+let fn_ s = match list s with
+  | [n; attrs; a; ps; ret] ->
+      { M.fn_name = str_ n; M.fn_attrs = list_ (list_ str_) attrs; M.fn_async = bool_ a;
+        M.fn_params = list_ (pair_ str_ qty_) ps; M.fn_ret = opt_ qty_ ret }
+  | _ -> failwith "fn"
+
 let of_decl = function
   | M.DType (n, b, fs) -> List [Atom "type"; of_nat n; of_nat b; of_list of_nat fs]
   | M.DSchema (n, b, fs) -> List [Atom "schema"; of_nat n; of_nat b; of_list of_nat fs]
@@ -59,6 +85,23 @@ let () =
               of_list of_nat v.M.v_nodes; of_list (of_pair of_nat of_nat) v.M.v_edges;
               of_list (of_pair of_nat of_nat) v.M.v_chains]
     | _ -> failwith "c13-viz: bad case");
+  Registry.register "viztext" (fun s ->
+    (* (omega project (type names..)) -> (((type depends-line) ..) (chain lines) (node lines) (edge lines)) *)
+    match list s with
+    | [w; p; names] ->
+        let v = M.c13_viz_text (list_ str_ names) (omega_ w) (project_ p) in
+        List [of_list (of_pair of_str of_str) v.M.vt_depends; of_list of_str v.M.vt_chains;
+              of_list of_str v.M.vt_nodes; of_list of_str v.M.vt_edges]
+    | _ -> failwith "c13-viztext: bad case");
+  Registry.register "textblocks" (fun s ->
+    (* (zod omega project (structs by body id..) (commands by id..)) -> ((types blocks) (commands blocks))? *)
+    match list s with
+    | [z; w; p; ss; cs] ->
+        (match M.c13_text_blocks (list_ struct_ ss) (list_ fn_ cs) (bool_ z) (omega_ w) (project_ p) with
+         | None -> List []
+         | Some (tb, cb) -> List [List [of_list (of_list of_sx) tb; of_list (of_list of_sx) cb]])
+    | _ -> failwith "c13-textblocks: bad case");
+  Registry.register "fileblocks" (fun s -> of_list (of_list of_sx) (M.c13_file_blocks (str_ s)));
   Registry.register "classes" (fun s -> of_list of_bool (M.c13_classes (project_ s)));
   Registry.register "rel" (fun s ->
     match list s with
